@@ -12,6 +12,8 @@ G_UNITS = {"cmp_flags": ["lemma_c02_accepted_is_coherent", "HelperAttributesForC
 FULL = ["PartialEq", "Eq", "PartialOrd", "Ord", "Hash"]
 
 
+G_UNITS["implitem"] = ["is_root_derive_ex_attr"]      # which sibling attributes belong to the request (split lists)
+
 def programs(ctx):
     rng = random.Random(ctx.seed + 2)
     subsets = R.closed_subsets()
